@@ -70,12 +70,53 @@ fn order() {
     }
 }
 
+// pre / post rules are first-wins in list order: removing a rule that a request never matched must not change that
+// request's route, and the route must equal the one of a router that never saw the removed rule
+fn prepost() {
+    use sozu_command_lib::{proto::command::{PathRule as PbPathRule, RulePosition}, response::HttpFrontend};
+    let front = |position: RulePosition, hostname: &str, prefix: &str, cluster: &str| HttpFrontend {
+        address: "127.0.0.1:8080".parse().unwrap(), hostname: hostname.to_owned(), path: PbPathRule::prefix(prefix.to_owned()),
+        method: None, position, cluster_id: Some(cluster.to_owned()), tags: None, redirect: None, redirect_scheme: None,
+        redirect_template: None, rewrite_host: None, rewrite_path: None, rewrite_port: None, required_auth: None,
+        headers: Vec::new(), hsts: None,
+    };
+    let get = Method::Get;
+    for position in [RulePosition::Pre, RulePosition::Post] {
+        // every way of adding 4 rules and removing one of them, probed with every host/path that some rule matches
+        let rules = [("unrelated.example.org", "/", "cluster_a"), ("www.example.com", "/api", "cluster_b"),
+                     ("*.example.com", "/", "cluster_c"), ("www.example.com", "/", "cluster_d")];
+        let probes = [("www.example.com", "/api/v1"), ("www.example.com", "/x"), ("img.example.com", "/"), ("unrelated.example.org", "/")];
+        for removed in 0..rules.len() {
+            let mut full = Router::new();
+            let mut reference = Router::new();
+            for (i, (h, p, c)) in rules.iter().enumerate() {
+                let f = front(position, h, p, c);
+                let _ = full.add_http_front(&f);
+                if i != removed { let _ = reference.add_http_front(&f); }
+            }
+            let (h, p, c) = rules[removed];
+            let _ = full.remove_http_front(&front(position, h, p, c));
+            for (ph, pp) in probes {
+                let a = cluster_of(&full, ph, pp, &get);
+                let b = cluster_of(&reference, ph, pp, &get);
+                if a != b {
+                    out(true, "prepost",
+                        format!("{position:?} rules added in order {rules:?}; rule #{removed} removed; lookup GET {ph}{pp}"),
+                        format!("routed to {a}; a router that was only ever given the three remaining rules (same order) routes to {b}"),
+                        "the route depends only on the configured frontends, not on the history of additions and removals");
+                }
+            }
+        }
+    }
+}
+
 fn main() {
     let a: Vec<String> = std::env::args().collect();
     match a.get(1).map(|s| s.as_str()) {
         Some("equals-identity") => equals_identity(),
         Some("order") => order(),
-        _ => { equals_identity(); order(); }
+        Some("prepost") => prepost(),
+        _ => { equals_identity(); order(); prepost(); }
     }
     out(false, a.get(1).map(|s| s.as_str()).unwrap_or("all"), String::new(), String::new(), "");
 }
